@@ -790,7 +790,8 @@ impl ActiveStatus {
 
         // Do some sanity checking that this is all okay
         let written_in_range = (segment_0idx as usize) < WRITTEN_SIZE;
-        let data_in_range = ((segment_0idx + 1) as usize * self.segment_size) <= self.slot_size;
+        let data_in_range =
+            DATA_REGION_OFFSET + ((segment_0idx + 1) as usize * self.segment_size) <= self.slot_size;
         assert_eq!(self.segment_size, bytes.len());
 
         if !(written_in_range && data_in_range) {
